@@ -343,8 +343,11 @@ type Syncer struct {
 }
 
 func (s *Syncer) resync(p *Peer, reason string) {
-	if p.Synced() {
-		p.setSynced(false)
+	wasSynced := p.Synced()
+	// also recorded when the peer is unsynced: a sync may be in progress, and
+	// what the peer just told us is not covered by it
+	p.requestResync()
+	if wasSynced {
 		s.log.Debug("resync triggered", zap.String("peer", p.t.Addr), zap.String("reason", reason))
 	}
 }
@@ -837,6 +840,7 @@ func (s *Syncer) syncLoop(ctx context.Context) error {
 		s.mu.Unlock()
 		type resp struct {
 			peer      *Peer
+			resyncs   uint64 // peer.resyncCount() when the headers were requested
 			cs        consensus.State
 			headers   []types.BlockHeader
 			remaining uint64
@@ -849,6 +853,7 @@ func (s *Syncer) syncLoop(ctx context.Context) error {
 		}
 		for _, p := range peers {
 			go func(p *Peer) {
+				resyncs := p.resyncCount()
 				cs, headers, remaining, err := func() (consensus.State, []types.BlockHeader, uint64, error) {
 					for _, id := range hist {
 						if id == (types.BlockID{}) {
@@ -870,7 +875,7 @@ func (s *Syncer) syncLoop(ctx context.Context) error {
 					}
 					return consensus.State{}, nil, 0, errNoCommonHistory
 				}()
-				respChan <- resp{peer: p, cs: cs, headers: headers, remaining: remaining, err: err}
+				respChan <- resp{peer: p, resyncs: resyncs, cs: cs, headers: headers, remaining: remaining, err: err}
 			}(p)
 		}
 		// sync each set of headers as they arrive
@@ -881,11 +886,11 @@ func (s *Syncer) syncLoop(ctx context.Context) error {
 				// best chain, e.g. because it was bootstrapped from a checkpoint
 				// above them. There is nothing we can fetch from it, but it is
 				// not misbehaving and may be syncing from us: keep it connected.
-				r.peer.setSynced(true)
+				r.peer.setSyncedSince(r.resyncs)
 			} else if r.err != nil {
 				r.peer.setErr(r.err)
 			} else if len(r.headers) == 0 {
-				r.peer.setSynced(true)
+				r.peer.setSyncedSince(r.resyncs)
 			} else if id := r.headers[len(r.headers)-1].ID(); seen[id] {
 				continue // already syncing these blocks from another peer
 			} else {
@@ -894,9 +899,10 @@ func (s *Syncer) syncLoop(ctx context.Context) error {
 				if err := s.parallelSync(ctx, r.cs, r.headers); err != nil {
 					s.log.Debug("sync failed", zap.Stringer("peer", r.peer), zap.Error(err))
 				} else if r.remaining == 0 {
-					// peer sent all their headers; mark them as synced and
-					// relay their tip
-					r.peer.setSynced(true)
+					// peer sent all their headers; mark them as synced (unless
+					// they announced something new in the meantime) and relay
+					// their tip
+					r.peer.setSyncedSince(r.resyncs)
 					go s.relayV2Header(r.headers[len(r.headers)-1], r.peer)
 				}
 			}
